@@ -36,12 +36,55 @@ theorem findInterval_go_le (map : List (Int × Nat)) (mappings : Nat) (req : Dbl
       · exact h
     · exact h
 
-/-- **C15_select** — whatever the request (any rational, ±infinity, NaN), if a template is chosen the
-interval number is at most `mappings`, hence the integer base setting satisfies
-`0 ≤ is ≤ mappings-1`: `is` and `is+1` are valid indices of every array in `C15_tables`. -/
-theorem C15_select (ts : List TemplateRow) (hts : ∀ t ∈ ts, 1 ≤ t.mappings) (ch srate : Int) (req : Dbl)
-    (byRate : Bool) (t : TemplateRow) (j : Nat) (h : getTemplate ts ch srate req byRate = some (t, j)) :
-    t ∈ ts ∧ j ≤ t.mappings ∧ baseIndex t j + 1 ≤ t.mappings := by
+/-- **C15_select** — whatever the request (any rational, ±infinity, NaN), if a template is chosen it
+is one of the table and the interval search stopped at some `j ≤ mappings`: the request lies inside
+the template's map, or it is the all-points match. -/
+theorem C15_select (map : List (Int × Nat)) (mappings : Nat) (req : Dbl) (j : Nat)
+    (h : findInterval map mappings req = some j) : j ≤ mappings := by
+  unfold findInterval at h
+  split at h
+  · split at h
+    · simp at h
+    · split at h
+      · simp at h
+      · simp only [Option.some.injEq] at h
+        rw [← h]
+        exact findInterval_go_le _ _ _ _ _ (Nat.zero_le _)
+  · simp at h
+
+/-- the all-points match (`j = mappings`, base setting `j-.001`) yields `is = mappings-1` -/
+theorem C15_allpoints (t : TemplateRow) (map : List (Int × Nat)) (req : Dbl) (h : 1 ≤ t.mappings) :
+    baseIndex t map t.mappings req + 1 ≤ t.mappings := by
+  unfold baseIndex
+  simp only [if_true]
+  omega
+
+/-- **C15_base_in_interval** — for every request (any rational, ±infinity, NaN), every map and every
+interval the search can stop at, the integer base setting computed with the C's exact float
+arithmetic (`Vorbis/F32.lean`) satisfies `is ≤ j`, hence `is+1 ≤ mappings`: `is` and `is+1` index
+inside every array listed in `C15_tables`. This theorem was *false* of the unrepaired code (finding
+F15: in the last interval float rounding gave `is = mappings`); it holds after the clamp. -/
+theorem C15_base_in_interval (t : TemplateRow) (map : List (Int × Nat)) (j : Nat) (req : Dbl)
+    (hm : 1 ≤ t.mappings) (hj : j ≤ t.mappings) :
+    baseIndex t map j req + 1 ≤ t.mappings := by
+  unfold baseIndex
+  split
+  · omega
+  · rename_i hne
+    have hlt : j < t.mappings := by omega
+    split
+    · simp only []
+      split
+      · omega
+      · split
+        · omega
+        · omega
+    · omega
+
+/-- the whole selection: a chosen template is one of the table and its base setting indexes in bounds -/
+theorem C15_select_in_bounds (ts : List TemplateRow) (hts : ∀ t ∈ ts, 1 ≤ t.mappings) (ch srate : Int)
+    (req : Dbl) (byRate : Bool) (t : TemplateRow) (is : Nat)
+    (h : getTemplate ts ch srate req byRate = some (t, is)) : t ∈ ts ∧ is + 1 ≤ t.mappings := by
   induction ts with
   | nil => simp [getTemplate] at h
   | cons a rest ih =>
@@ -51,30 +94,13 @@ theorem C15_select (ts : List TemplateRow) (hts : ∀ t ∈ ts, 1 ≤ t.mappings
     · split at h
       · rename_i map _
         split at h
-        · rename_i j' hj
+        · rename_i j hj
           simp only [Option.some.injEq, Prod.mk.injEq] at h
           obtain ⟨rfl, rfl⟩ := h
-          have hm := hts a (by simp)
-          have hle : j' ≤ a.mappings := by
-            unfold findInterval at hj
-            split at hj
-            · split at hj
-              · simp at hj
-              · split at hj
-                · simp at hj
-                · simp only [Option.some.injEq] at hj
-                  rw [← hj]
-                  exact findInterval_go_le _ _ _ _ _ (Nat.zero_le _)
-            · simp at hj
-          refine ⟨by simp, hle, ?_⟩
-          unfold baseIndex
-          split <;> omega
-        · have := ih hr h
-          exact ⟨by simp [this.1], this.2⟩
-      · have := ih hr h
-        exact ⟨by simp [this.1], this.2⟩
-    · have := ih hr h
-      exact ⟨by simp [this.1], this.2⟩
+          exact ⟨by simp, C15_base_in_interval _ _ _ _ (hts _ (by simp)) (C15_select _ _ _ _ hj)⟩
+        · have := ih hr h; exact ⟨by simp [this.1], this.2⟩
+      · have := ih hr h; exact ⟨by simp [this.1], this.2⟩
+    · have := ih hr h; exact ⟨by simp [this.1], this.2⟩
 
 /-- **C15_codes** — the set-up entry points return success or one of the documented codes, with the
 exact decision table: non-positive rate → `OV_EINVAL`; no template → `OV_EIMPL`;
@@ -144,6 +170,11 @@ theorem C15_clean (s : St) (ch rate mx nom mn : Int) (req : Dbl) :
 
 /-- non-vacuity: 44.1 kHz stereo at quality 0.41 selects template 0, interval 5 -/
 example : (getTemplate templates 2 44100 (.fin 41 100) false).map (fun p => (p.1.idx, p.2)) = some (0, 5) := by
+  decide +kernel
+
+/-- the boundary case the correspondence found: quality 0.9 - 2 ulp (+1e-7 in float = 0.9f = 15099494/16777216)
+    lies in interval 9; the float sum rounds to 10.0 and the clamp brings the setting back to 9 -/
+example : (getTemplate templates 2 44100 (.fin 15099494 16777216) false).map (fun p => (p.1.idx, p.2)) = some (0, 9) := by
   decide +kernel
 
 end Vorbis.Props.C15
